@@ -407,8 +407,14 @@ class FIXNewOrderSingle:
             #   Let's set order inactive
             self.leaves_qty = 0
 
+        if self.orig_clord_id and m.get(FTag.ClOrdID, None) == self.clord_id:
+            # Request was rejected, order is still alive under previous ClOrdID
+            #  (also allows subsequent cancel / replace requests)
+            self.clord_id = self.orig_clord_id
+            self.orig_clord_id = None
+
         if new_status is not None:
-            self.status = new_status
+            self.status = FOrdStatus(new_status)
             return True
         else:
             return False
